@@ -695,6 +695,163 @@ fn condobj_family(only: Option<u64>, thin: u64) {
     println!("{{\"family\":\"condobj\",\"fn\":\"extract\",\"cases\":{},\"universe\":{},\"failures\":{},\"failed_cases\":{:?},\"first\":{}}}", evaluated, cases, failed.len(), failed, first.unwrap_or("null".into()));
 }
 
+// family `exclude` (C07, bounded, source level): `type X = Exclude<A, B>` for A, B from a small type language (literals,
+// basic types, tuples, objects, unions, two named recursive types). The type handed to code generation for X is read
+// with an independent evaluator of Runtype (structural objects) on a universe of finite values and must lie between
+// the set difference and A:   (v in A and v not in B)  =>  v in X   and   v in X  =>  v in A.
+// (TypeScript's distributive Exclude and beff's semantic difference with its Not<> members dropped both lie in between.)
+fn rt_eval(r: &beff_core::ast::runtype::Runtype, v: &CV, vals: &[beff_core::NamedSchema], fuel: usize) -> Option<bool> {
+    use beff_core::ast::runtype::{Optionality, RuntypeConst, RuntypeKind};
+    if fuel == 0 { return None; }
+    Some(match &r.kind {
+        RuntypeKind::Null => *v == CV::Null,
+        RuntypeKind::String => matches!(v, CV::Str(_)),
+        RuntypeKind::Number => matches!(v, CV::Num(_)),
+        RuntypeKind::Boolean | RuntypeKind::Undefined | RuntypeKind::Void | RuntypeKind::Function | RuntypeKind::Date | RuntypeKind::BigInt => false,
+        RuntypeKind::Any => true,
+        RuntypeKind::Never => false,
+        RuntypeKind::AnyArrayLike => matches!(v, CV::List(_)),
+        RuntypeKind::Const(RuntypeConst::Number(n)) => match v { CV::Num(i) => n.to_f64() == *i as f64, _ => false },
+        RuntypeKind::Const(RuntypeConst::Bool(_)) => false,
+        RuntypeKind::TplLitType(_) => match (r.extract_single_string_const(), v) { (Some(s), CV::Str(x)) => s == *x, (None, _) => return None, _ => false },
+        RuntypeKind::AnyOf(vs) => { for it in vs { if rt_eval(it, v, vals, fuel - 1)? { return Some(true); } } false }
+        RuntypeKind::AllOf(vs) => { for it in vs { if !rt_eval(it, v, vals, fuel - 1)? { return Some(false); } } true }
+        RuntypeKind::StNot(it) => !rt_eval(it, v, vals, fuel - 1)?,
+        RuntypeKind::Ref(n) => rt_eval(&vals.iter().find(|s| s.name == *n)?.schema, v, vals, fuel - 1)?,
+        RuntypeKind::Array(it) => match v { CV::List(xs) => { for x in xs { if !rt_eval(it, x, vals, fuel - 1)? { return Some(false); } } true } _ => false },
+        RuntypeKind::Tuple { prefix_items, items } => match v {
+            CV::List(xs) => {
+                if xs.len() < prefix_items.len() || (xs.len() > prefix_items.len() && items.is_none()) { return Some(false); }
+                for (i, x) in xs.iter().enumerate() {
+                    let t = if i < prefix_items.len() { &prefix_items[i] } else { items.as_ref().unwrap() };
+                    if !rt_eval(t, x, vals, fuel - 1)? { return Some(false); }
+                }
+                true
+            }
+            _ => false,
+        },
+        RuntypeKind::Object { vs, indexed_properties } => match v {
+            CV::Obj(kv) => {
+                for (k, t) in vs {
+                    match (kv.iter().find(|(k2, _)| k2 == k), t) {
+                        (Some((_, x)), Optionality::Required(t)) | (Some((_, x)), Optionality::Optional(t)) => { if !rt_eval(t, x, vals, fuel - 1)? { return Some(false); } }
+                        (None, Optionality::Required(_)) => return Some(false),
+                        (None, Optionality::Optional(_)) => {}
+                    }
+                }
+                if let Some(ip) = indexed_properties {
+                    for (k, x) in kv {
+                        if vs.contains_key(*k) { continue; }
+                        // only string-keyed signatures occur here
+                        if !matches!(ip.key.kind, RuntypeKind::String) { return None; }
+                        if !rt_eval(ip.value.inner(), x, vals, fuel - 1)? { return Some(false); }
+                    }
+                }
+                true
+            }
+            _ => false,
+        },
+        _ => return None,
+    })
+}
+fn exclude_family(only: Option<u64>, thin: u64) {
+    let b = |t: CT| Box::new(t);
+    let defs: Vec<(&'static str, CT)> = vec![
+        ("T", CT::Tup(vec![CT::Num], Some(b(CT::Ref("T"))))),
+        ("L", CT::Obj(vec![("v", CT::Num), ("next", CT::Or(vec![CT::Null, CT::Ref("L")]))])),
+    ];
+    // literal types are written as one-element "unions" of a value: reuse CT with dedicated Str/Num literal forms
+    let lit = |s: &'static str| CT::Ref(s);   // see `extra` below: names that expand to literal type text
+    let extra: Vec<(&'static str, &'static str)> = vec![("One", "1"), ("Two", "2"), ("SA", "\"a\""), ("SB", "\"b\"")];
+    let atoms: Vec<CT> = vec![
+        CT::Null, CT::Num, CT::Str, lit("One"), lit("Two"), lit("SA"), lit("SB"),
+        CT::Tup(vec![CT::Num], None), CT::Tup(vec![CT::Num, CT::Str], None), CT::Tup(vec![CT::Num], Some(b(CT::Str))), CT::Arr(b(CT::Num)), CT::Arr(b(CT::Or(vec![CT::Num, CT::Str]))),
+        CT::Obj(vec![("v", CT::Num)]), CT::Obj(vec![("v", CT::Str)]), CT::Obj(vec![("v", CT::Or(vec![CT::Num, CT::Str]))]), CT::Obj(vec![("v", CT::Num), ("next", CT::Null)]),
+        CT::Ref("T"), CT::Ref("L"),
+    ];
+    let mut types: Vec<CT> = atoms.clone();
+    for (i, x) in atoms.iter().enumerate() { for y in atoms.iter().skip(i + 1) { types.push(CT::Or(vec![x.clone(), y.clone()])); } }
+    // values
+    let mut values = cv_values(2);
+    for extra_v in [CV::Num(2), CV::Num(3), CV::Str("b"), CV::Str("c"), CV::List(vec![CV::Num(3)]), CV::Obj(vec![("v", CV::Num(3))]), CV::Obj(vec![("v", CV::Str("c"))]), CV::List(vec![CV::Num(1), CV::Str("a")]), CV::List(vec![CV::Num(1), CV::Str("a"), CV::Str("b")]), CV::List(vec![CV::Num(1), CV::Num(2)]), CV::Obj(vec![("v", CV::Str("a"))]), CV::Obj(vec![("v", CV::Num(1))])] {
+        if !values.contains(&extra_v) { values.push(extra_v); }
+    }
+    let lit_member = |n: &str, v: &CV| -> Option<bool> { match n { "One" => Some(*v == CV::Num(1)), "Two" => Some(*v == CV::Num(2)), "SA" => Some(*v == CV::Str("a")), "SB" => Some(*v == CV::Str("b")), _ => None } };
+    fn mem2(t: &CT, v: &CV, defs: &[(&'static str, CT)], lit_member: &dyn Fn(&str, &CV) -> Option<bool>) -> bool {
+        match t {
+            CT::Ref(n) => match lit_member(n, v) { Some(r) => r, None => mem2(&defs.iter().find(|(k, _)| k == n).unwrap().1, v, defs, lit_member) },
+            CT::Or(vs) => vs.iter().any(|t| mem2(t, v, defs, lit_member)),
+            CT::Arr(i) => match v { CV::List(xs) => xs.iter().all(|x| mem2(i, x, defs, lit_member)), _ => false },
+            CT::Tup(p, r) => match v { CV::List(xs) => xs.len() >= p.len() && (xs.len() == p.len() || r.is_some()) && xs.iter().enumerate().all(|(i, x)| if i < p.len() { mem2(&p[i], x, defs, lit_member) } else { mem2(r.as_ref().unwrap(), x, defs, lit_member) }), _ => false },
+            // structural reading of object types (as the validators read them)
+            CT::Obj(fs) => match v { CV::Obj(kv) => fs.iter().all(|(k, t)| match kv.iter().find(|(k2, _)| k2 == k) { Some((_, x)) => mem2(t, x, defs, lit_member), None => false }), _ => false },
+            other => ct_member(other, v, defs),
+        }
+    }
+    let prelude: String = defs.iter().map(|(n, t)| format!("type {} = {};\n", n, ct_ts(t))).chain(extra.iter().map(|(n, t)| format!("type {} = {};\n", n, t))).collect();
+    let (mut cases, mut skipped, mut evaluated) = (0u64, 0u64, 0u64);
+    let mut failed: Vec<u64> = vec![];
+    let mut first: Option<String> = None;
+    std::panic::set_hook(Box::new(|_| {}));
+    for ta in &types { for tb in &types {
+        cases += 1;
+        if let Some(o) = only { if o != cases { continue; } } else if cases % thin != 0 { continue; }
+        evaluated += 1;
+        let src = format!("{}type X = Exclude<{}, {}>;\nparse.buildParsers<{{ X: X }}>();\n", prelude, ct_ts(ta), ct_ts(tb));
+        let res = std::panic::catch_unwind(|| {
+            GLOBALS.set(&Globals::new(), || {
+                let f = BffFileName::new("entry.ts".into());
+                let m = parse_and_bind(&mut Res {}, &f, &src).ok()?;
+                let mut fs = BTreeMap::new();
+                fs.insert(f, m);
+                let mut man = Fm { fs };
+                let p = beff_core::extract(&mut man, EntryPoints { parser_entry_point: BffFileName::new("entry.ts".into()),
+                    settings: BeffUserSettings { string_formats: BTreeSet::new(), number_formats: BTreeSet::new() } });
+                if !p.errors.is_empty() { return None; }
+                Some(p.validators)
+            })
+        });
+        let vals = match res { Ok(Some(v)) => v, Ok(None) => { skipped += 1; continue; } Err(_) => { failed.push(cases); if first.is_none() { first = Some(format!("{{\"case\":{},\"input\":{:?},\"observed\":\"the compiler PANICS\",\"required\":\"a type\"}}", cases, src)); } continue; } };
+        let Some(x) = vals.iter().find(|s| match &s.name.ty { beff_core::RuntypeName::Address(a) => a.name == "X", _ => false }) else { skipped += 1; continue };
+        let mut bad: Option<String> = None;
+        for v in &values {
+            let in_a = mem2(ta, v, &defs, &lit_member);
+            let in_b = mem2(tb, v, &defs, &lit_member);
+            let Some(in_x) = rt_eval(&x.schema, v, &vals, 64) else { continue };
+            if in_a && !in_b && !in_x { bad = Some(format!("the value {} is in the first type and not in the second, but not in the result", cv_ts(v))); break; }
+            if in_x && !in_a { bad = Some(format!("the value {} is in the result but not in the first type", cv_ts(v))); break; }
+        }
+        // exact when no Not<> is needed: every top-level member of the first type is, on the value universe, either
+        // contained in the second type or disjoint from it - then the result is exactly the union of the disjoint members
+        if bad.is_none() {
+            let members: Vec<CT> = match ta { CT::Or(vs) => vs.clone(), other => vec![other.clone()] };
+            let mut kept: Vec<&CT> = vec![];
+            let mut clean = true;
+            for m in &members {
+                let inside: Vec<&CV> = values.iter().filter(|v| mem2(m, v, &defs, &lit_member)).collect();
+                if inside.is_empty() { clean = false; break; }
+                let all_in_b = inside.iter().all(|v| mem2(tb, v, &defs, &lit_member));
+                let none_in_b = inside.iter().all(|v| !mem2(tb, v, &defs, &lit_member));
+                if none_in_b { kept.push(m); } else if !all_in_b { clean = false; break; }
+            }
+            if clean {
+                for v in &values {
+                    let expect = kept.iter().any(|m| mem2(m, v, &defs, &lit_member));
+                    let Some(in_x) = rt_eval(&x.schema, v, &vals, 64) else { continue };
+                    if in_x != expect { bad = Some(format!("every member of the first type is either inside or outside the second; the value {} {} in the remaining members but {} in the result", cv_ts(v), if expect { "is" } else { "is not" }, if in_x { "is" } else { "is not" })); break; }
+                }
+            }
+        }
+        if let Some(obs) = bad {
+            failed.push(cases);
+            if std::env::var("TWIN_ALL").is_ok() { eprintln!("FAIL case {} | Exclude<{}, {}> | {}", cases, ct_ts(ta), ct_ts(tb), obs); }
+            if first.is_none() { first = Some(format!("{{\"case\":{},\"input\":{:?},\"observed\":{:?},\"required\":{:?}}}", cases, src, obs, "difference <= result <= first type, on the value universe")); }
+        }
+    } }
+    if skipped > 0 { eprintln!("exclude: {} programs answered with a diagnostic or without a definition of X (skipped)", skipped); }
+    println!("{{\"family\":\"exclude\",\"fn\":\"extract\",\"cases\":{},\"universe\":{},\"failures\":{},\"failed_cases\":{:?},\"first\":{}}}", evaluated, cases, failed.len(), failed, first.unwrap_or("null".into()));
+}
+
 fn main() {
     let args: Vec<String> = std::env::args().collect();
     let mut depth = 1usize;
@@ -706,6 +863,7 @@ fn main() {
     let mut cond = false;
     let mut condlist: Option<u64> = None;
     let mut condobj: Option<u64> = None;
+    let mut exclude: Option<u64> = None;
     let mut i = 1;
     while i < args.len() {
         match args[i].as_str() {
@@ -718,12 +876,14 @@ fn main() {
             "--cond" => { cond = true; i += 1; }
             "--condlist" => { condlist = Some(args[i + 1].parse().unwrap()); i += 2; }
             "--condobj" => { condobj = Some(args[i + 1].parse().unwrap()); i += 2; }
+            "--exclude" => { exclude = Some(args[i + 1].parse().unwrap()); i += 2; }
             _ => i += 1,
         }
     }
     if cond { cond_family(only); return; }
     if let Some(thin) = condlist { condlist_family(only, thin); return; }
     if let Some(thin) = condobj { condobj_family(only, thin); return; }
+    if let Some(thin) = exclude { exclude_family(only, thin); return; }
     if is_child { child(depth, offset, from, only, timeout_s); return; }
     let exe = std::env::current_exe().expect("exe");
     let total = if std::env::var("FRONT_SRC").is_ok() { 1 } else { programs(depth, offset).len() as u64 };
